@@ -212,30 +212,56 @@ def real_open(*a, **k):
 
 
 class FileProxy(object):
-    """Forwarding proxy over an unbuffered real file; write/flush/close are instants."""
+    """Forwarding proxy over an unbuffered real file that models a *buffered* writer:
+    data handed to write() sits in a buffer of `bufsize` bytes and reaches the file in
+    low-level writes, when the buffer overflows, on flush() and on close().  Every
+    low-level write, flush and close is an instant; a failed low-level write loses the
+    data it carried (error) or half of it (torn).  bufsize 0 = unbuffered."""
 
-    def __init__(self, sim, realf, role):
+    def __init__(self, sim, realf, role, bufsize=0):
         self._sim = sim
         self._real = realf
         self._role = role
         self._closed = False
+        self._buf = b""
+        self._bufsize = bufsize
         sim.files.append(realf)
 
-    def write(self, data):
+    def _lowlevel(self, data):
         act = self._sim.instant(self._role + "-write", len(data))
         if act == "error":
             raise OSError(errno.ENOSPC, "simulated: no space left on device")
         if act == "torn":
             k = max(0, len(data) // 2)
             if k:
-                self._real.write(bytes(data[:k]) if not isinstance(data, str) else data[:k])
+                self._real.write(data[:k])
             raise OSError(errno.ENOSPC, "simulated: no space left on device (torn write)")
-        n = self._real.write(data)
-        return len(data) if n is None else n
+        self._real.write(data)
+
+    def write(self, data):
+        if self._closed:
+            raise ValueError("write to closed file")
+        if isinstance(data, str):
+            raise TypeError("a bytes-like object is required, not 'str'")
+        data = bytes(data)
+        if self._bufsize <= 0:
+            self._lowlevel(data)
+            return len(data)
+        self._buf += data
+        if len(self._buf) > self._bufsize:
+            out, self._buf = self._buf, b""
+            self._lowlevel(out)
+        return len(data)
+
+    def _drain(self):
+        if self._buf:
+            out, self._buf = self._buf, b""
+            self._lowlevel(out)
 
     def flush(self):
         if self._closed:
             return
+        self._drain()
         act = self._sim.instant(self._role + "-flush")
         if act in ("error", "torn"):
             raise OSError(errno.EIO, "simulated I/O error on flush")
@@ -244,9 +270,14 @@ class FileProxy(object):
     def close(self):
         if self._closed:
             return
-        act = self._sim.instant(self._role + "-close")
-        self._closed = True
-        self._real.close()
+        try:
+            self._drain()
+            act = self._sim.instant(self._role + "-close")
+        finally:
+            # like io.BufferedWriter: the descriptor is closed even when the final flush fails
+            if not self._sim.crashed:
+                self._closed = True
+                self._real.close()
         if act in ("error", "torn"):
             raise OSError(errno.EIO, "simulated I/O error on close")
 
@@ -286,12 +317,13 @@ class FsSim(object):
     observe callable(label) invoked at every instant *before* it executes
     """
 
-    def __init__(self, tmpdir, plan=None, exdev=False, encoding="utf-8", observe=None):
+    def __init__(self, tmpdir, plan=None, exdev=False, encoding="utf-8", observe=None, bufsize=0):
         self.tmpdir = os.path.realpath(tmpdir)
         self.plan = dict(plan or {})
         self.exdev = exdev
         self.encoding = encoding
         self.observe = observe
+        self.bufsize = bufsize
         self.trace = []
         self.fired = []
         self.crashed = False
@@ -339,11 +371,11 @@ class FsSim(object):
             raise OSError(errno.ENOSPC, "simulated: cannot create file")
         if "b" in mode:
             realf = _real["open"](file, mode, 0, None, None, None, closefd, opener)
-            return FileProxy(self, realf, role)
+            return FileProxy(self, realf, role, self.bufsize)
         if encoding is None:
             encoding = self.encoding
         realf = _real["open"](file, mode.replace("t", "") + "b", 0)
-        return io.TextIOWrapper(_ProxyRaw(FileProxy(self, realf, role)), encoding=encoding,
+        return io.TextIOWrapper(_ProxyRaw(FileProxy(self, realf, role, self.bufsize)), encoding=encoding,
                                 errors=errors, newline=newline, write_through=True)
 
     def _fdopen(self, fd, mode="r", buffering=-1, encoding=None, *args, **kwargs):
@@ -356,9 +388,9 @@ class FsSim(object):
             os.close(fd)
             raise OSError(errno.EMFILE, "simulated: too many open files")
         if "b" in mode:
-            return FileProxy(self, _real["fdopen"](fd, mode, 0), "tmp")
+            return FileProxy(self, _real["fdopen"](fd, mode, 0), "tmp", self.bufsize)
         realf = _real["fdopen"](fd, mode.replace("t", "") + "b", 0)
-        return io.TextIOWrapper(_ProxyRaw(FileProxy(self, realf, "tmp")),
+        return io.TextIOWrapper(_ProxyRaw(FileProxy(self, realf, "tmp", self.bufsize)),
                                 encoding=encoding or self.encoding, write_through=True)
 
     def _os_open(self, path, flags, mode=0o777, *, dir_fd=None):
